@@ -291,7 +291,7 @@ func renameTest(repo, id string, c *eng.Ctx, baseOpen map[string]bool) map[strin
 		fmt.Printf("SELFTEST property=%s neutral-rename: SKIPPED %s\n", id, tail(o.Msg, 200))
 		return res
 	}
-	var alarms []string
+	alarms := []string{}
 	for _, op := range o.Open {
 		if !baseOpen[op.Key] {
 			alarms = append(alarms, op.Clause+" "+op.Key+" :: "+tail(op.Fact, 160))
